@@ -7,6 +7,10 @@ use serde_json::{json, Value};
 pub mod c01;
 pub mod c02;
 pub mod c03;
+pub mod c04;
+pub mod c05;
+pub mod c06;
+pub mod c07;
 
 /// Reference bracket: largest i <= n-2 with x[i] <= q; 0 below the range; n-2 at/above the end.
 pub fn bracket(x: &[f64], q: f64) -> usize {
@@ -57,4 +61,71 @@ pub fn within(got: f64, want: &Rat, tol: f64) -> (bool, f64) {
     let t = Rat::from_f64(tol);
     let ok = d.le(&t);
     (ok, d.to_f64() / tol)
+}
+
+use crate::adapt::{Arr, QDim, I1};
+use crate::common::Fail;
+
+/// Evaluate 1-D queries through one of the value entry points.
+/// ep: 0 interp_scalar (Ix1 data only), 1 interp, 2 interp_array Ix1, 3 interp_array Ix2, 4 interp_array IxDyn.
+/// Returns Err(Fail) on a rejected query (callers only pass queries that must be answered).
+pub fn eval1<T: Flt>(interp: &dyn I1<T>, qs: &[f64], ep: usize, lanes: usize, trailing: &[usize]) -> Result<Vec<Vec<T>>, Fail> {
+    let nq = qs.len();
+    let qt: Vec<T> = qs.iter().map(|&q| T::of(q)).collect();
+    let mut res: Vec<Vec<T>> = Vec::with_capacity(nq);
+    match ep {
+        0 => {
+            for &q in &qt {
+                match interp.t_scalar(q).expect("scalar entry on non-Ix1 data") {
+                    Ok(v) => res.push(vec![v]),
+                    Err(e) => return Err(Fail::new("query-rejected", format!("interp_scalar({:e}) -> {e}", q.f()))),
+                }
+            }
+        }
+        1 => {
+            for &q in &qt {
+                match interp.t_interp(q) {
+                    Ok(a) => res.push(a.v),
+                    Err(e) => return Err(Fail::new("query-rejected", format!("interp({:e}) -> {e}", q.f()))),
+                }
+            }
+        }
+        _ => {
+            let (qshape, qd) = match ep {
+                2 => (vec![nq], QDim::S1),
+                3 => {
+                    let a = if nq % 4 == 0 { 4 } else if nq % 3 == 0 { 3 } else if nq % 2 == 0 { 2 } else { 1 };
+                    (vec![a, nq / a], QDim::S2)
+                }
+                _ => (vec![nq], QDim::Dyn),
+            };
+            let qa = ndarray::ArrayD::from_shape_vec(ndarray::IxDyn(&qshape), qt).unwrap();
+            match interp.t_array(qa.view(), qd).unwrap() {
+                Ok(Arr { shape, v }) => {
+                    let mut want = qshape.clone();
+                    want.extend_from_slice(trailing);
+                    if shape != want {
+                        return Err(Fail::new("result-shape", format!("interp_array shape {shape:?}, expected {want:?}")));
+                    }
+                    for k in 0..nq {
+                        res.push(v[k * lanes..(k + 1) * lanes].to_vec());
+                    }
+                }
+                Err(e) => return Err(Fail::new("query-rejected", format!("interp_array -> {e}"))),
+            }
+        }
+    }
+    Ok(res)
+}
+
+pub const EP_NAMES: [&str; 5] = ["scalar", "interp", "array1", "array2", "arraydyn"];
+
+/// pick a value entry point (scalar only when the data is statically 1-D)
+pub fn pick_ep(src: &mut crate::common::Src, scalar_ok: bool) -> usize {
+    let ep = src.weighted(&[2, 2, 3, 2, 1]);
+    if ep == 0 && !scalar_ok {
+        1
+    } else {
+        ep
+    }
 }
